@@ -492,16 +492,7 @@ def main(tier):
         nct += 1
         key = "ctor(%s)" % ", ".join(p["t"] for p in fn["params"])[:80]
         ck.instance("R-C17-6", key)
-        seq = []
-        for s in fn["body"]["s"]:
-            for c in structq.calls_in(s):
-                q = structq.callee_of(c)
-                if q in COORD_WRITERS or q in ORDER:
-                    seq.append(q)
-            for e in structq.exprs_of_stmt(s):
-                for tgt, node in structq.writes_in_expr(e):
-                    if structq.is_this_field(tgt) and tgt["field"] in ("radii_", "angles_", "nr_", "ntheta_"):
-                        seq.append("write:" + tgt["field"])
+        seq = structq.event_sequence(prog, fn, set(COORD_WRITERS) | set(ORDER), ("radii_", "angles_", "nr_", "ntheta_"), "PolarGrid::")
         tail = [q for q in seq if q in ORDER]
         probs = []
         if tail != ORDER:
